@@ -281,6 +281,7 @@ class Gen:
         if base is None:
             base = TypeRef(r.choice(INT_BUILTINS + STRING_BUILTINS * 4 + ["string"] * 3 + ["boolean", "double", "date"]))
         st = SimpleType(nm, base, Facets(), self.doc(), fidx)
+        st.lexical_style = r.choice(["plain", "plain", "plus", "padded", "zeros"])
         ub = st.ultimate_builtin()
         f = st.facets
         if ub in INT_BUILTINS:
@@ -441,6 +442,40 @@ class Gen:
                 f.components.insert(0, h)
                 f.components.remove(g)
                 f.components.append(g)
+            # twins: a component that is looked up by name from its own file (base= / ref=) gets a namesake of the same kind in
+            # an imported namespace (read earlier), and is itself declared after its referrer — a lookup that is lenient about
+            # the namespace binds the forward reference to the namesake
+            imported = [j for j in dict.fromkeys(f.imports) if j != f.idx and j not in self.in_progress(f.idx)]
+            if not imported:
+                continue
+            for c in list(f.components):
+                if c.kind not in ("complex", "gelement") or r.random() < 0.4:
+                    continue
+                used_here = False
+                for d in f.components:
+                    if d is c or d.kind not in ("complex", "gelement"):
+                        continue
+                    if c.kind == "complex" and getattr(d, "base", None) is not None and d.base.comp is c:
+                        used_here = True
+                    if c.kind == "gelement" and getattr(d, "content", None) is not None and any(
+                            m["kind"] == "ref" and m["target"] is c and not m.get("inherited") for m in flat_members(d)):
+                        used_here = True
+                if not used_here:
+                    continue
+                j = r.choice(imported)
+                other = self.files[j]
+                if any(x.name.pascal == c.name.pascal for x in other.components):
+                    continue
+                nm = Name(c.name.words, c.name.style, c.name.literal)
+                if c.kind == "complex":
+                    twin = ComplexType(nm, Content(Group("sequence", 1, 1, [LocalElement(Name(("namesake", "marker"), "camel"), TypeRef("boolean"))]), []),
+                                       file=j)
+                else:
+                    twin = GlobalElement(nm, type=TypeRef("boolean"), file=j)
+                other.components.append(twin)
+                self.features.add("namesake-in-imported-namespace")
+                f.components.remove(c)
+                f.components.append(c)
 
     # ------------------------------------------------------------------ WSDL
     def make_wsdl(self, ss):
